@@ -263,7 +263,7 @@ SUBS = [
         max_skip_frac=0.2,
         floors={
             "completed": 0.45, "nt": 0.142, "lp_on": 0.169, "lp_off": 0.25, "ratio<1": 0.079, "early_stop": 0.075,
-            "m:DemographicParity": 0.08, "m:TruePositiveRateParity": 0.079, "m:FalsePositiveRateParity": 0.08,
+            "m:DemographicParity": 0.069, "m:TruePositiveRateParity": 0.079, "m:FalsePositiveRateParity": 0.08,
             "m:EqualizedOdds": 0.08, "m:ErrorRateParity": 0.08, "bound:default": 0.15, "bound:diff": 0.146,
             "groups3": 0.2,
         },
